@@ -1,6 +1,7 @@
 (* C09 driver.  argv[1] = case file, optional argv[2] = the implementation's output for the same cases.
-   Case line:  <P|C><G|U|V><S|N>[:<elem>:<cmp>:<via>] <sentinel> <seq> <seq> ...   with <seq> = "-" (empty) or "k,k,k".
-   <elem> and <via> (element size, direct class / switch alias / moved) do not exist in the model; <cmp> = gt | st- selects
+   Case line:  <P|C><G|U|V><S|N>[:<elem>:<cmp>:<via>[:<store>]] <sentinel> <seq> <seq> ...   with <seq> = "-" (empty) or "k,k,k".
+   <elem>, <via> and <store> (element size, direct class / switch alias / moved, where the caller keeps the keys) do not
+   exist in the model; <cmp> = gt | st- selects
    the instances with the comparator reversed (coq/C09/Instances.v), lt | st+ | df the ones with N.ltb.
    V = unguarded class driven outside its key precondition (keys may exceed the sentinel; the caller consults the tree
    only while some current key beats the sentinel): model = run_gN, checker = check_gN.
@@ -35,7 +36,7 @@ let () =
       | head :: sent :: seqs when String.length head >= 3 && (String.length head = 3 || head.[3] = ':') ->
         let parts = String.split_on_char ':' head in
         let vs = List.hd parts in
-        let rev = (match parts with [_; _; c; _] -> c = "gt" || c = "st-" | _ -> false) in
+        let rev = (match parts with _ :: _ :: c :: _ -> c = "gt" || c = "st-" | _ -> false) in
         let v = parse_variant vs in
         let seqs = List.map parse_seq seqs in
         let general = (vs.[1] = 'V') in
